@@ -51,11 +51,12 @@ PROPS['C07']={
  'obligations':[{'name':'agreement','module':'harness.C07','cls':'Agreement','quick':{'nlinks':2},'thorough':{'nlinks':3}}]}
 
 PROPS['C13']={
- 'bounds_statement':'self-composition of in_toto_verify from MIR (reference run in insertion order vs. every permutation of every hash map) over 1-2 steps with 2-3 links per step that may differ, any u32 thresholds, free signature validity.',
+ 'bounds_statement':'self-composition of in_toto_verify from MIR (reference run in insertion order vs. every permutation of every hash map) over 1-2 steps with 2-3 links per step that may differ, any u32 thresholds, free signature validity; plus the rule engine on two-algorithm digest tables under every HashMap iteration order (its verdict must equal the order-free reference model).',
  'assumptions':PIPE_ASSUME+['directory enumeration order is not varied (glob returns paths sorted; stated, not checked)'],
  'obligations':[{'name':'determinism','module':'harness.C13','cls':'Determinism','quick':{'nlinks':2},'thorough':{'nlinks':3}},
                 {'name':'determinism_3links','module':'harness.C13','cls':'Determinism','quick':{'nlinks':3,'all_valid':True,'rate':400},'thorough':{'nlinks':3,'all_valid':True,'rate':400}},
-                {'name':'determinism_two_steps','module':'harness.C13','cls':'Determinism','tier_only':'thorough','quick':{},'thorough':{'nlinks':2,'two_steps':True}}]}
+                {'name':'determinism_two_steps','module':'harness.C13','cls':'Determinism','tier_only':'thorough','quick':{},'thorough':{'nlinks':2,'two_steps':True}},
+                {'name':'rule_engine_digest_tables','module':'harness.C03','cls':'Rules','quick':{'group':'algs','rate':4},'thorough':{'group':'algs','rate':2}}]}
 
 PROPS['C15']={
  'bounds_statement':'in_toto_verify from MIR with the recursive call executed for real (depth 2): sub-layout filed under an authorized / unauthorized key, 1-2 sub-layout signatures with free validity, expired or not, inner links present/absent in the dedicated sub-directory with free validity, decoys in the parent directory; summary compared field by field; and a step with two functionaries filing the same sub-layout, each copy checked against its own sub-directory.',
@@ -66,7 +67,8 @@ PROPS['C15']={
 PROPS['C08']={
  'bounds_statement':'in_toto_verify from MIR with a ghost event log behind the two side-effecting calls (in_toto_run, fs::write): every combination of stage failures (owner signature, expiry, missing / badly signed link, failing step rule) x inspection outcomes (spawn error, any i32 exit status, products, inspection rules) within the shape bound.',
  'assumptions':PIPE_ASSUME+['the inspection subprocess and the files it touches are outside the claim; the stub returns what runlib documents: Err or a link with Some(exit status)'],
- 'obligations':[{'name':'inspections','module':'harness.C08','cls':'Inspections','quick':{'ninsp':1},'thorough':{'ninsp':2}}]}
+ 'obligations':[{'name':'inspections','module':'harness.C08','cls':'Inspections','quick':{'ninsp':1},'thorough':{'ninsp':2}},
+                {'name':'sublayout_inspection','module':'harness.C08','cls':'SublayoutInspection','quick':{},'thorough':{}}]}
 
 UNIT_ASSUME=['std/dependency calls replaced by the listed models (coverage.trusted_base); every run replays sampled paths natively against the real crate and compares outcomes',
              'dev-profile arithmetic (overflow checks on): an overflow is a panic; the release profile wraps instead']
@@ -92,6 +94,7 @@ PROPS['C03']={
   {'name':'basic','module':'harness.C03','cls':'Rules','quick':{'group':'basic','seq':1},'thorough':{'group':'basic','seq':1,'algs':True}},
   {'name':'match','module':'harness.C03','cls':'Rules','quick':{'group':'match','seq':1},'thorough':{'group':'match','seq':1}},
   {'name':'match_pairs','module':'harness.C03','cls':'Rules','quick':{'group':'pairs'},'thorough':{'group':'pairs'}},
+  {'name':'match_algorithms','module':'harness.C03','cls':'Rules','quick':{'group':'algs','rate':4},'thorough':{'group':'algs','rate':2}},
   {'name':'inspection_item','module':'harness.C03','cls':'Rules','quick':{'group':'match','seq':1,'item':'inspection','rate':200},'thorough':{'group':'basic','seq':1,'item':'inspection'}},
   {'name':'basic_seq2','module':'harness.C03','cls':'Rules','tier_only':'thorough','quick':{},'thorough':{'group':'basic','seq':2,'rate':2000}},
   {'name':'match_seq2','module':'harness.C03','cls':'Rules','tier_only':'thorough','quick':{},'thorough':{'group':'match','seq':2,'rate':2000}},
@@ -116,7 +119,7 @@ PROPS['C11']={
  'assumptions':SIGNED_ASSUME,
  'obligations':[{'name':'link','module':'harness.signed','cls':'SignedBytes','quick':{'what':'link','prop':'C11','nbytes':2},'thorough':{'what':'link','prop':'C11','nbytes':3}},
                 {'name':'layout','module':'harness.signed','cls':'SignedBytes','quick':{'what':'layout','prop':'C11','nbytes':2},'thorough':{'what':'layout','prop':'C11','nbytes':3}},
-                {'name':'key_id_preimage','module':'harness.C12','cls':'KeyIds','quick':{},'thorough':{},'validate':{'quick':9,'thorough':18}}]}
+                {'name':'key_id_preimage','module':'harness.C12','cls':'KeyIds','quick':{},'thorough':{},'validate':{'quick':30,'thorough':30}}]}
 PROPS['C09']={
  'bounds_statement':'decided part: (a) Metablock::new, MetablockBuilder::sign and Metablock::verify hand byte-identical strings to the sign / verify primitives for the same link or layout (free string field incl. newline, backslash, quote, controls; free numbers); (b) the signed block produced by Metablock::new, serialised (Serializer model), decoded again on the borrowed-text and tree channels (Deserializer model) and verified, hands the verify primitive exactly the bytes that were signed; together with C04 (threshold counting under the ideal-signature oracle) this gives: what the library signs verifies again after the wire trip. NOT decided here: the JSON tokenizer (serde_json text layer, compact vs pretty - exercised by the native replay only) and the behaviour of the real primitives under bit flips / cross-scheme use (ring, FFI) - these are exercised only by the native replay samples.',
  'assumptions':SIGNED_ASSUME,
@@ -182,7 +185,7 @@ PROPS['C12']={
  'assumptions':UNIT_ASSUME+SIGNED_ASSUME[:1]+['untrusted / derp (DER reader and writer) modelled from derp 0.0.15\'s source; pem encode/parse modelled for concrete bytes (base64 of symbolic bytes is out of reach, hence RSA is decided on the fixture key only); SHA-256 is an injective function of its input (concrete inputs use the real SHA-256)',
                  'JSON text round trip of keys is C16/C17 (wire_pubkey)'],
  'obligations':[
-   {'name':'key_id','module':'harness.C12','cls':'KeyIds','quick':{},'thorough':{},'validate':{'quick':9,'thorough':9}},
+   {'name':'key_id','module':'harness.C12','cls':'KeyIds','quick':{},'thorough':{},'validate':{'quick':30,'thorough':30}},
    {'name':'spki','module':'harness.C12','cls':'Spki','quick':{},'thorough':{},'validate':{'quick':4,'thorough':4}},
    {'name':'key_table','module':'harness.C12','cls':'KeyTable','quick':{},'thorough':{},'validate':{'quick':6,'thorough':6}},
    {'name':'key_json','module':'harness.C12','cls':'KeyJson','quick':{},'thorough':{},'validate':{'quick':12,'thorough':40}},
